@@ -93,7 +93,9 @@ def gen_case(ck, cap):
         queries = []
         for _ in range(rng.randint(2, 5)):
             s = list(rng.choice(orbit))
-            if rng.random() < 0.15:
+            if rng.random() < 0.12:
+                s = list(gd.central)  # distance 0: the empty path
+            elif rng.random() < 0.15:
                 s = list(gd.central)
                 if gd.kind == "perm":
                     s[rng.randrange(len(s))] = rng.choice(gd.central)
